@@ -29,7 +29,15 @@ def main(args=None):
         res = run_patch(os.path.join(d, "patch.diff"), [own])
         rc = res.get(own, (None, []))[0] if "_error" not in res else None
         rep = res.get(own, (None, [""]))[1][:1] if "_error" not in res else [res["_error"][:200]]
-        return {"kind": "seeded", "property": own, "seed": os.path.basename(d), "expected": 1, "exit": rc, "ok": rc == 1, "report": (rep[0] if rep else "")[:240]}
+        want = 1
+        try:
+            # a confirmed change that no rule reports yet is recorded as open in its meta.json (DESIGN.md 7.2): expected silent, so that
+            # the table shows when a later rule starts to report it
+            if json.load(open(os.path.join(d, "meta.json"))).get("open_miss"):
+                want = 0
+        except (OSError, ValueError):
+            pass
+        return {"kind": "seeded" if want else "seeded-open", "property": own, "seed": os.path.basename(d), "expected": want, "exit": rc, "ok": rc == want, "report": (rep[0] if rep else "")[:240]}
 
     with ThreadPoolExecutor(max_workers=16) as ex:
         rows += list(ex.map(one, MUTANTS))
